@@ -425,10 +425,31 @@ def r8_into_owned_is_fieldwise(ctx):
     into_owned_fieldwise(ctx, "C15.R8", r"^jsonrpsee_types::(response::Response|error::ErrorObject)::<.*>::into_owned$", 2)
 
 
+def r9_client_tries_response_first(ctx):
+    """the client accepts as a response exactly what the Response parser accepts (unknown members ignored) only if Response
+    is the *first* classification it tries - Notification ignores unknown members too, so an object `{id, result,
+    method: ".."}` tried as a notification first is taken for one and the call never completes. Both in the single-object
+    and in the array-element classification of handle_recv_message."""
+    from . import c05
+    F, R = ctx.F, ctx.R
+    b = F.one(c05.HRM)
+    R.fn(b)
+    calls = c05._classifier_calls(b)
+    from .common import enclosing_loop_next
+    groups = {"single": [], "element": []}
+    for c in calls:
+        groups["element" if enclosing_loop_next(b, c.bb) is not None else "single"].append(c)
+    for label, lst in groups.items():
+        lst = sorted(lst, key=lambda c: len(b.dom[c.bb]))
+        tys = [c05._norm_ty(c.ga[-1]) for c in lst]
+        first_is_response = bool(tys) and "Response<" in tys[0] and "Notification" not in tys[0]
+        R.check(first_is_response, "C15.R9", "client-%s:response-first" % label, "the %s classification tries Response first" % label, "the client's %s classification tries %s before Response: a valid response that carries an extra `method` member is taken for a notification and its call never completes (the HTTP client, which parses Response directly, still accepts it)" % (label, [short(t) for t in tys[:3]]), where(lst[0]) if lst else None)
+
+
 CONTROLS = [control_handmade, control_borrowed_str]
 
 
-RULES = [r1_code_tables, r2_serializer, r3_field_tables, r4_duplicate_guards, r5_acceptance_table, r6_no_handmade_json, r7_no_borrowed_str, r8_into_owned_is_fieldwise]
+RULES = [r1_code_tables, r2_serializer, r3_field_tables, r4_duplicate_guards, r5_acceptance_table, r6_no_handmade_json, r7_no_borrowed_str, r8_into_owned_is_fieldwise, r9_client_tries_response_first]
 
 LEVEL_TEXT = (
     "Decision tables and structural facts extracted exactly from the type-checked serde code: the error-code tables are "
